@@ -28,9 +28,7 @@ ASSUMPTIONS = [
 FLOORS = {"same-key-change": 0.2, "ordered-move": 0.04, "removal+addition": 0.5, "rewrite-reset": 0.04}
 
 
-@st.composite
-def _cases(draw):
-    rnd = draw(urandoms())
+def _gen_from(rnd):
     vendor = rnd.choice(VENDORS)
     rules = RL.gen_rules(rnd)
     ctx = RL.Ctx(rules)
@@ -43,6 +41,16 @@ def _cases(draw):
         chain.append(cur)
     return {"vendor": vendor, "rules": rules, "old": RL.plain(old), "chain": [RL.plain(c) for c in chain]}
 
+
+@st.composite
+def _cases(draw):
+    return _gen_from(draw(urandoms()))
+
+
+def fuzz_decode(fdp):
+    """coverage-guided tier: the same generator driven by fuzzer-chosen bytes (vf/core/fuzz_target.py)"""
+    from vf.model.rnd import FdpRandom
+    return _gen_from(FdpRandom(fdp))
 
 def strategy(tier):
     return _cases()
